@@ -12,6 +12,7 @@ import (
 	"sync"
 
 	"verifh/cases"
+	"verifh/model"
 	"verifh/run"
 	"verifh/tlcrun"
 )
@@ -106,6 +107,61 @@ func checkC17(c *Ctx) {
 		}
 		os.RemoveAll(base)
 	}
+	// a tie-rich repository: sibling commits with one timestamp, equal sizes, several annotated tags --
+	// whatever is chosen among equals must be chosen the same way every time (table footnotes included)
+	{
+		var g model.Graph
+		g.Blobs = []int{10, 10, 10}
+		names := map[int][]byte{1: []byte("a"), 2: []byte("b"), 3: []byte("c")}
+		g.Trees = [][]model.Entry{{{K: "file", To: 1, N: 1, NL: 1}}, {{K: "file", To: 2, N: 2, NL: 1}}, {{K: "file", To: 3, N: 3, NL: 1}}}
+		g.Commits = []model.Commit{{Tree: 1, Parents: []int{}}}
+		var roots []cases.RootSpec
+		for i := 0; i < 6; i++ {
+			g.Commits = append(g.Commits, model.Commit{Tree: 1 + i%3, Parents: []int{1}, Size: 400})
+			roots = append(roots, cases.RootSpec{O: model.Oid{K: "c", I: i + 2}, Walk: true, IsRef: true, Name: fmt.Sprintf("refs/heads/b%d", i), Kind: "plain"})
+		}
+		for i := 0; i < 6; i++ {
+			g.Tags = append(g.Tags, model.Tag{TK: "c", To: 2 + i, Size: 200})
+			roots = append(roots, cases.RootSpec{O: model.Oid{K: "g", I: i + 1}, Walk: true, IsRef: true, Name: fmt.Sprintf("refs/tags/t%d", i), Kind: "plain"})
+		}
+		g.Normalize()
+		sc := cases.ScanCase{ID: "ties", G: g, Roots: roots, Names: names, Style: "full", Dates: []int64{1000000000, 1000000000, 1000000000, 1000000000, 1000000000, 1000000000, 1000000000}}
+		base, _ := os.MkdirTemp(c.Scratch, "ties-")
+		repoDir := filepath.Join(base, "r")
+		if _, err := materialiseCase(repoDir, &sc); err != nil {
+			Infra("ties repository: %v", err)
+		}
+		nrep := 12
+		if !quick(c) {
+			nrep = 60
+		}
+		for _, args := range [][]string{{"--json", "--no-progress"}, {"-v", "--no-progress"}, {"--json", "--json-version=2", "--no-progress"}} {
+			first := ""
+			for rep := 0; rep < nrep; rep++ {
+				res := race.Run(run.Opt{Dir: repoDir, Args: args, Home: base,
+					Env: []string{fmt.Sprintf("GOMAXPROCS=%d", []int{1, 2, 4, 16}[rep%4]), "GORACE=halt_on_error=0"}})
+				total++
+				c.Distinct(fmt.Sprintf("ties/%v/%d", args, rep))
+				why := ""
+				switch {
+				case res.Exit != 0:
+					why = "no_report"
+				case strings.Contains(string(res.Stderr), "DATA RACE"):
+					why = "data_race_reported"
+				case first == "":
+					first = string(res.Stdout)
+				case string(res.Stdout) != first:
+					why = "stdout_not_deterministic"
+				}
+				if why != "" {
+					c.AddViolation(Violation{Predicate: why, Spec: "CliRun / determinism (ties)", Kind: "ties",
+						Input: map[string]interface{}{"case": sc, "args": args}, Observed: map[string]interface{}{"stderr": tail(string(res.Stderr), 8)}})
+					break
+				}
+			}
+		}
+		os.RemoveAll(base)
+	}
 	c.CountEval(int64(total))
 	// traces of racy-build runs on generated repositories are behaviours of Scan
 	var cs []cases.ScanCase
@@ -148,4 +204,5 @@ func replayDet(c *Ctx, raw json.RawMessage) bool {
 func init() {
 	checks["C17"] = checkC17
 	replays["det"] = replayDet
+	replays["ties"] = replayTies
 }
